@@ -1,3 +1,5 @@
 import MLModel.Scalar
 import MLModel.Vec
 import MLModel.Distance
+import MLModel.Classify
+import MLModel.Calibrate
